@@ -182,11 +182,14 @@ func (m *multi) DeserializeCellBlocks(msg proto.Message, b []byte) (uint32, erro
 				return 0, errors.New("no result or exception for action in multi response")
 			} else if r != nil && e != nil {
 				return 0, errors.New("got result and exception for action in multi response")
+			} else if int(i) > len(m.calls) || m.calls[i-1] == nil {
+				// returnResults relies on indices being validated here
+				return 0, fmt.Errorf("no call with index %d in multi request", i)
 			} else if e != nil {
 				continue
 			}
 
-			c := m.get(i)                     // TODO: maybe return error if it's out-of-bounds
+			c := m.get(i)
 			d := c.(canDeserializeCellBlocks) // let it panic, because then it's our bug
 
 			response := c.NewResponse()
@@ -233,6 +236,10 @@ func (m *multi) returnResults(msg proto.Message, err error) {
 		if e := rar.GetException(); e != nil {
 			// Got an exception for the whole region,
 			// fail all the calls for that region.
+			if i >= len(m.regions) {
+				// more regions than in the request
+				continue
+			}
 			reg := m.regions[i]
 
 			err := exceptionToError(*e.Name, string(e.Value))
